@@ -29,4 +29,10 @@ def addDynamicTypeItemText (env : LexEnv) (c : Cfg F) (now : Now) (it : UnitItem
   | none => some (c, false)
   | some _ => (patternTokens env c "en" now parse).map fun ps => addDynamicTypeItem c { it with parse := ps }
 
+/-- `SmartCalc::set_date_rule(language, patterns)` from the pattern texts, tokenised in `language` -/
+def setDateRuleText (env : LexEnv) (c : Cfg F) (now : Now) (lang : String) (pats : List String) : Option (Cfg F) :=
+  match c.lang? lang with
+  | none => some c
+  | some _ => (patternTokens env c lang now pats).map fun ps => setDateRule c lang ps
+
 end SC
